@@ -37,13 +37,23 @@ inductive Val where
   | none
   deriving DecidableEq, Repr, Inhabited
 
-/-- Keys as they are stored in a `dict`: `Index(i) == i` and `hash(Index(i)) == hash(i)`, so the two
-coincide; `Reserved('SKIP') == 'SKIP'` likewise; a `Literal` object is hashed by identity (`id`). -/
+/-- Key OBJECTS as a `dict` holds them.  `Index(i) == i` and `hash(Index(i)) == hash(i)`: the two address the
+same entry (`DKey.norm`, used by every lookup), but the dict keeps the key object it was first given, and
+`items()` / `keys()` list that object — so `idx i` (an `Index` instance stored as a key) and `int i` are distinct
+stored keys that can never both occur in one dict (wp-C18F; before, the model stored keys up to `==` and the
+correspondence had to canonicalise listed paths).  `Reserved('SKIP') == 'SKIP'` is a `str`; a `Literal` object is
+hashed by identity (`id`). -/
 inductive DKey where
   | str (s : String)
   | int (i : Int)
   | lit (id : Nat) (v : Nat)
+  | idx (i : Int)
   deriving DecidableEq, Repr, Inhabited
+
+/-- The `==` / `hash` class of a key object: what a dict lookup compares. -/
+def DKey.norm : DKey → DKey
+  | .idx i => .int i
+  | k => k
 
 /-- One element of a key path (`Key`): a string, `Key.Index(i)`, a plain int, `Key.SELF`,
 `Key.SKIP`, or `Key.Literal(v)` (object number `id`, value object at reference `v`). -/
@@ -58,7 +68,7 @@ inductive PKey where
 
 abbrev Path := List PKey
 
-/-- The dictionary key a path element denotes when used in `d[k]`. -/
+/-- The dictionary key a path element denotes when used in `d[k]` — its `==` class (always a normal form). -/
 def PKey.toDKey : PKey → DKey
   | .str s => .str s
   | .idx i => .int i
@@ -66,6 +76,12 @@ def PKey.toDKey : PKey → DKey
   | .self => .str "SELF"
   | .skip => .str "SKIP"
   | .lit id v => .lit id v
+
+/-- The key OBJECT `d[k] = v` stores when `k` is not yet a key of `d` (an existing entry keeps its old key
+object): the path element itself, `Index` instances included. -/
+def PKey.stored : PKey → DKey
+  | .idx i => .idx i
+  | k => k.toDKey
 
 /-- The integer a path element denotes when used in `l[k]` (`none` → `TypeError`). -/
 def PKey.asInt : PKey → Option Int
@@ -101,15 +117,16 @@ def resolveIdx (n : Nat) (i : Int) : Option Nat :=
   if 0 ≤ i then (if i.toNat < n then some i.toNat else none)
   else (if (-i).toNat ≤ n then some (n - (-i).toNat) else none)
 
-/-- `d[k] = v` on the entry list of a dict: replace in place, or append at the end. -/
+/-- `d[k] = v` on the entry list of a dict: replace the VALUE of the entry whose key equals `k` (Python keeps
+the key object already there), or append `(k, v)` at the end. -/
 def dictSet : List (DKey × Ref) → DKey → Ref → List (DKey × Ref)
   | [], k, v => [(k, v)]
-  | (k', v') :: es, k, v => if k' = k then (k, v) :: es else (k', v') :: dictSet es k v
+  | (k', v') :: es, k, v => if k'.norm = k.norm then (k', v) :: es else (k', v') :: dictSet es k v
 
 /-- `d.get(k)` -/
 def dictGet : List (DKey × Ref) → DKey → Option Ref
   | [], _ => none
-  | (k', v') :: es, k => if k' = k then some v' else dictGet es k
+  | (k', v') :: es, k => if k'.norm = k.norm then some v' else dictGet es k
 
 /-- `seq[k]` for a list/tuple: integer keys only, negative indices from the end. -/
 def seqGet (rs : List Ref) (k : PKey) : Except ErrKind Ref :=
@@ -387,7 +404,7 @@ def assign (h : Heap) (res : Ref) (k : PKey) (child : Ref) : Res Unit :=
       match resolveIdx cur.length i with
       | none => (h, .error .index)
       | some j => (write h res (.list (cur.set j child)), .ok ())
-  | some (.dict cur) => (write h res (.dict (dictSet cur k.toDKey child)), .ok ())
+  | some (.dict cur) => (write h res (.dict (dictSet cur k.stored child)), .ok ())
   | _ => (h, .error .other)
 
 /-- `except (ValueError, KeyError, IndexError, TypeError) as e: raise KeyError(...)` (tree.py:503-507): these
@@ -573,6 +590,7 @@ def dkeyToPKey : DKey → PKey
   | .str s => .str s
   | .int i => .int i
   | .lit id v => .lit id v
+  | .idx i => .idx i
 
 /-- `enumerate(data)` with keys `Index(start)`, `Index(start+1)`, … -/
 def seqChildren : List Ref → Nat → List (PKey × Ref)
